@@ -85,7 +85,10 @@ def impl_main():
                         dev.execute(cmd)
                         if sgio.LOG:
                             f = sgio.LOG[0]["file"]
-                            o = ["sent", handles.index(f), canon(f.inode), canon(node), not f.closed]
+                            if f in handles:
+                                o = ["sent", handles.index(f), canon(f.inode), canon(node), not f.closed]
+                            else:
+                                o = ["sent", 99, 0, canon(node), False]
                     elif ev == "replug":
                         tmp = p + ".new"
                         builtins.open(tmp, "wb").close()
@@ -116,7 +119,7 @@ def impl_main():
             except Exception:  # noqa
                 cur_ino = None
             out.append(dict(outs=res, inos=inos, os_closes=[h.os_closes for h in handles], open_at_end=[not h.closed for h in handles],
-                            cur=handles.index(dev._file), cur_ino=cur_ino))
+                            cur=(handles.index(dev._file) if dev._file in handles else -1), cur_ino=cur_ino))
             for h in handles:
                 try:
                     h.real.close()
@@ -170,7 +173,7 @@ def oracle(case, r):
                     return "event %d: detection is off but the handle was replaced" % i
     if any(c > 1 for c in r["os_closes"]):
         return "a handle was released more than once: %s" % r["os_closes"]
-    if case["events"] and case["events"][-1] in ("close", "exit") and r["outs"][-1][0] != "raised" and r["open_at_end"][r["cur"]]:
+    if case["events"] and case["events"][-1] in ("close", "exit") and r["outs"][-1][0] != "raised" and r["cur"] >= 0 and r["open_at_end"][r["cur"]]:
         return "after close()/exit the current handle is still open"
     return None
 
